@@ -13,6 +13,9 @@ def main():
     if a.pid in CORE:
         import core
         mod = core
+    elif a.pid == "C10":
+        import c10
+        mod = c10
     elif a.pid == "C07":
         import c07
         mod = c07
